@@ -161,6 +161,9 @@ pub struct World {
     pub panics: Vec<(String, PanicInfo)>,
     /// other traffic for the next `verify` call (consumed by it)
     pub traffic: Option<Traffic>,
+    /// atomics leg: (atomic operations seen inside jobs, preemptions taken there) during
+    /// interleaved verifications
+    pub atomic_stats: (u64, u64),
 }
 
 /// Another verification that happens "at the same time" as the one under test: on another
@@ -230,7 +233,7 @@ impl World {
     pub fn new(directory: BTreeMap<String, String>) -> World {
         #[cfg(feature = "mock")]
         auto_salts::new_world();
-        World { rt: Runtime::new(), directory: Arc::new(directory), signed_by: BTreeMap::new(), kb_made: BTreeMap::new(), ops: 0, panics: Vec::new(), traffic: None }
+        World { rt: Runtime::new(), directory: Arc::new(directory), signed_by: BTreeMap::new(), kb_made: BTreeMap::new(), ops: 0, panics: Vec::new(), traffic: None, atomic_stats: (0, 0) }
     }
 
     pub fn note_panic<T>(&mut self, what: &str, o: &Out<T>) {
@@ -390,6 +393,11 @@ impl World {
                 self.rt.submit(node, main);
                 self.rt.submit(t.node, bg);
                 let was = seams::PREEMPT_CLOCK.swap(true, std::sync::atomic::Ordering::SeqCst);
+                // atomics leg: also at every atomic operation of the two verifications
+                #[cfg(sdsim_tsan)]
+                crate::tsanrt::configure(crate::rng::mix(&[t.seed, 0xa70]), [5u64, 30, 150][(t.seed % 3) as usize]);
+                #[cfg(sdsim_tsan)]
+                let at0 = crate::tsanrt::counters();
                 let mut rng = crate::rng::Rng::new(t.seed);
                 let mut out: Option<Result<JobOut, PanicInfo>> = None;
                 let mut bg_done = false;
@@ -423,6 +431,13 @@ impl World {
                     }
                 }
                 seams::PREEMPT_CLOCK.store(was, std::sync::atomic::Ordering::SeqCst);
+                #[cfg(sdsim_tsan)]
+                {
+                    crate::tsanrt::configure(1, 0);
+                    let at1 = crate::tsanrt::counters();
+                    self.atomic_stats.0 += at1.0 - at0.0;
+                    self.atomic_stats.1 += at1.1 - at0.1;
+                }
                 match out {
                     Some(Ok(o)) => Ok(*o.downcast::<Out<Value>>().expect("job output type")),
                     Some(Err(p)) => Err(p),
